@@ -105,3 +105,34 @@ fn c19_padding_end_to_end_bounded() {
         }
     }
 }
+
+fn any_bounds() -> NodeBounds {
+    NodeBounds { extra_cells: kani::any(), extra_frames: kani::any(), cost: Cost(kani::any()) }
+}
+
+/// kind: complete
+/// C07: the static bounds of case / comp / disconnect dominate both children in cells AND frames (loop-free, all inputs)
+#[kani::proof]
+fn c07_bounds_dominate_children_complete() {
+    let (l, r) = (any_bounds(), any_bounds());
+    let (lc, lf, rc, rf) = (l.extra_cells, l.extra_frames, r.extra_cells, r.extra_frames);
+    let c = NodeBounds::case(l, r);
+    assert!(c.extra_cells >= lc && c.extra_cells >= rc);
+    assert!(c.extra_frames >= lf && c.extra_frames >= rf);
+    assert!(c.extra_cells == if lc > rc { lc } else { rc });
+    assert!(c.extra_frames == if lf > rf { lf } else { rf });
+}
+
+/// kind: complete
+/// C07: comp adds the middle type's cells and one frame on top of the larger child, saturating
+#[kani::proof]
+fn c07_bounds_comp_complete() {
+    let (l, r) = (any_bounds(), any_bounds());
+    let (lc, lf, rc, rf) = (l.extra_cells, l.extra_frames, r.extra_cells, r.extra_frames);
+    let mid: usize = kani::any();
+    let c = NodeBounds::comp(l, r, mid);
+    let mc = if lc > rc { lc } else { rc };
+    let mf = if lf > rf { lf } else { rf };
+    assert!(c.extra_cells == mid.saturating_add(mc));
+    assert!(c.extra_frames == mf.saturating_add(1));
+}
